@@ -143,6 +143,12 @@ def gen_config(rng, alpha_kinds=("fixed", "single"), allow_fail=True):
             market[a] = bars          # an asset without any bar has NO file (a header-only CSV is outside the properties)
     cfg["market"] = market
     cfg["assets"] = assets
+    # (no risk model in session configurations: BacktestTradingSession hands its risk_model to QuantTradingSystem
+    # positionally, where it lands in *args and is ignored - see DESIGN section 7, observations; the risk-model hook
+    # is exercised on the PortfolioConstructionModel directly by the Pcm engine)
+    cfg["risk"], cfg["rset"] = "none", []
+    # the data handler the session builds itself from QSTRADER_CSV_DATA_DIR (whole directory) instead of a supplied one
+    cfg["default_dh"] = alpha in ("fixed", "single") and rng.random() < 0.2
     # the library prints every event by default; a quarter of the configurations run with printing ON (output discarded)
     cfg["printing"] = rng.random() < 0.25
     return cfg
@@ -167,10 +173,10 @@ def cfg_tla(c):
     market = fn(c["market"], lambda bars: fn(dict((int(d), v) for d, v in bars.items()), lambda oc: "<<%d, %d>>" % tuple(oc), q=False))
     return ('[start |-> %d, end |-> %d, burn |-> %d, sched |-> "%s", wd |-> %d, kind |-> "%s", par |-> <<%d, %d>>, '
             'fee |-> [kind |-> "%s", c |-> %d, t |-> %d], cash |-> %d, alpha |-> "%s", weights |-> %s, entry |-> %s, market |-> %s, '
-            'lookback |-> %d, topn |-> %d]'
+            'lookback |-> %d, topn |-> %d, risk |-> "%s", rset |-> {%s}]'
             % (c["start"], c["end"], c["burn"], c["sched"], c["wd"], c["kind"], par.numerator, par.denominator,
                c["fee"]["kind"], c["fee"]["c"], c["fee"]["t"], c["cash"], c["alpha"], fn(c["weights"], str), fn(c["entry"], str), market,
-               c.get("lookback", 0), c.get("topn", 1)))
+               c.get("lookback", 0), c.get("topn", 1), c.get("risk", "none"), ", ".join('"%s"' % a for a in c.get("rset", []))))
 
 
 def cases_module(cfgs):
@@ -277,6 +283,7 @@ def _build_session(c, csv_dir, signals_factory=None, alpha_factory=None, data_so
     else:
         universe = DynamicUniverse(dict((SYM[a], (None if e == -1 else (ts(c["start"]) if e == 0 else ts(e))))
                                         for a, e in sorted(entry.items())))
+    given_sources = data_sources
     if data_sources is None:
         syms = sorted(c["market"])
         data_sources = [CSVDailyBarDataSource(csv_dir, Equity, csv_symbols=syms)]
@@ -308,8 +315,22 @@ def _build_session(c, csv_dir, signals_factory=None, alpha_factory=None, data_so
         kw["cash_buffer_percentage"] = float(Fraction(c["par"]))
     else:
         kw["gross_leverage"] = float(Fraction(c["par"]))
+    risk_model = None
+    if c.get("risk", "none") != "none":
+        from qstrader.risk_model.risk_model import RiskModel
+        kind_r, rset = c["risk"], set(SYM[a] for a in c["rset"])
+
+        class _Risk(RiskModel):
+            def __call__(self, dt, weights):
+                if kind_r == "zero":
+                    return dict((a, (0.0 if a in rset else w)) for a, w in weights.items())
+                return dict((a, w) for a, w in weights.items() if a not in rset)
+        risk_model = _Risk()
+    if c.get("default_dh") and given_sources is None and signals is None and alpha_factory is None:
+        os.environ["QSTRADER_CSV_DATA_DIR"] = csv_dir
+        dh = None
     sess = BacktestTradingSession(
-        ts(c["start"]), ts(c["end"]), universe, alpha, signals=signals, initial_cash=c["cash"] / 1000.0,
+        ts(c["start"]), ts(c["end"]), universe, alpha, risk_model=risk_model, signals=signals, initial_cash=c["cash"] / 1000.0,
         rebalance={"weekly": "weekly", "daily": "daily", "eom": "end_of_month", "bah": "buy_and_hold"}[c["sched"]],
         long_only=(c["kind"] == "dw"), fee_model=fee, burn_in_dt=(None if c["burn"] == -1 else ts(c["burn"])),
         data_handler=dh, **kw)
